@@ -9,7 +9,7 @@ RULE = ("peak lists of length 1..64 with positive dyadic intensities (multiples 
         "exactly on cumulative sums, at and above the total, zero, negative; class of a case = (operation, source, "
         "input length, output length / outcome); comparisons whose exact margin is below 1e-9 on inexact inputs "
         "are counted as boundary_skipped")
-MODULES = ["Props.C14", "Props.C13Range"]
+MODULES = ["Props.C14", "Props.C13Range", "Props.C14Float"]
 
 
 def run(r: Run):
